@@ -419,7 +419,12 @@ NAME_CHARS = "abcdefghijklmnopqrstuvwxyzABCXYZ0123456789_-[]"
 
 def name(rng, used=()):
     while True:
-        n = rng.choice("abcdefghxyzABC") + "".join(rng.choice(NAME_CHARS) for _ in range(rng.randint(0, 7)))
+        if used and rng.random() < 0.25:
+            # a name that extends or shortens one already in use (boundaries are found by comparing names)
+            base = rng.choice(list(used))
+            n = base + rng.choice(["_", "1", "_x", "x"]) if rng.random() < 0.7 or len(base) < 2 else base[:-1]
+        else:
+            n = rng.choice("abcdefghxyzABC") + "".join(rng.choice(NAME_CHARS) for _ in range(rng.randint(0, 7)))
         if n not in used:
             return n
 
@@ -851,6 +856,16 @@ def cases(rng, tier):
     # 6c. explicitly masked columns: reads must not change them
     for _ in range(120 if quick else 3000):
         yield column_case(rng)
+    # 6d. one object written, edited in place, written again (and parsed, edited, written): state across calls
+    from props import c06_api
+    import sys as _sys
+    me = _sys.modules[__name__]
+    for _ in range(70 if quick else 1500):
+        yield c06_api.reuse_case(rng, me)
+    # 6e. less-used entry points / spellings / defaults (oracle level)
+    for sub in c06_api.SUBS:
+        for _ in range(10 if quick else 150):
+            yield c06_api.api_case(rng, me, sub)
     # 7. cached row count across edits
     for _ in range(80 if quick else 2000):
         yield rowcount_history(rng)
@@ -1052,7 +1067,26 @@ def _rc_rows(flav, ser):
     return len(next(iter(cat.values())))
 
 
+BINARY_KINDS = ("container/b", "rowcount/b", "column/b", "eqrows/b", "reuse/b")
+
+
+def _uses_extension(case):
+    k = case.get("kind", "")
+    return k.startswith(BINARY_KINDS) or (k.startswith("api/") and case.get("flav") == "b")
+
+
 def run_impl(case):
+    """Cases that reach the compiled BinaryCIF encodings run in a forked child: a dead process is a verdict."""
+    if _uses_extension(case) and case.get("ops"):
+        from common import sandbox
+        r = sandbox.run_forked(_run_impl, case, timeout=120)
+        if r[0] == "ok":
+            return r[1]
+        return [("CRASH" if r[0] == "crash" else "TIMEOUT" if r[0] == "timeout" else "UNCAUGHT:" + r[1])] * len(case["ops"])
+    return _run_impl(case)
+
+
+def _run_impl(case):
     import biotite.structure.io.pdbx as pdbx
     from biotite.structure.io.pdbx import cif as C
 
@@ -1110,6 +1144,10 @@ def run_impl(case):
                 out.append("ok " + ("_" if not bs else "|".join(bs)))
             elif w[0] == "eqrows":
                 out.append("ok " + str(_eqrows_eval(w)))
+            elif w[0] == "reuse":
+                from props import c06_api
+                import sys as _sys
+                out.append(c06_api.reuse_impl(_sys.modules[__name__], w[1], w[2]))
             elif w[0] == "lazyget":
                 f = pdbx.CIFFile.deserialize(dec(w[1]))
                 cat = f[dec(w[2])][None if w[3] == "~" else dec(w[3])]
@@ -1359,6 +1397,9 @@ def _container_oracle(case):
                 continue
         except Exception as e:  # noqa: BLE001
             return [(f"C06/container/{kind}/{w[0]}", f"{op}: unexpected {type(e).__name__}: {e}")]
+        if isinstance(got, str) and got.endswith("Error") and cont is not None and list(cont) != list(ref):
+            return [(f"C06/container/{kind}/refused-call-changed-state",
+                     f"{op} raised {got}, and the keys changed from {list(ref)} to {list(cont)}")]
         if got != exp:
             return [(f"C06/container/{kind}/{w[0]}", f"after {case['ops'][:case['ops'].index(op)]!r}: {op} gave {got!r}, a dict gives {exp!r}")]
     # finally: every iterated key is retrievable and holds what was set
@@ -1489,6 +1530,25 @@ def _eqrows_oracle(case):
 
 
 def oracle(case):
+    if _uses_extension(case):
+        from common import sandbox
+        r = sandbox.run_forked(_oracle, case, timeout=120)
+        if r[0] == "ok":
+            return r[1]
+        if r[0] == "err":
+            raise RuntimeError(f"oracle raised {r[1]}: {r[2]}")
+        return [("C06/crash/" + case.get("kind", "?"), f"the process died ({r}) while running this case on the real code")]
+    return _oracle(case)
+
+
+def _oracle(case):
+    import sys as _sys
+    if case.get("kind", "").startswith("reuse/"):
+        from props import c06_api
+        return c06_api.reuse_oracle(case, _sys.modules[__name__])
+    if case.get("kind", "").startswith("api/"):
+        from props import c06_api
+        return c06_api.api_oracle(case, _sys.modules[__name__])
     if case.get("kind", "").startswith("eqrows/"):
         return _eqrows_oracle(case)
     if case.get("kind", "").startswith("column/"):
@@ -1514,8 +1574,15 @@ def nontrivial(case, impl_out):
     return True
 
 
+def util_jdump(x):
+    import json
+    return json.dumps(x, sort_keys=True, default=str)
+
+
 def signature(case):
-    return "|".join(case["ops"])
+    if case.get("ops"):
+        return "|".join(case["ops"])
+    return util_jdump({k: v for k, v in case.items() if not k.startswith("_")})
 
 
 def distribution(cases_, impl_outs):
